@@ -287,3 +287,72 @@ proof!(c02_selectors_three, 6, {
     forget(v);
     forget(sc);
 });
+
+// [i, j, *] on one node of 3 elements: the two indexed nodes first (as far as they select),
+// then every element in index order - also when the later selector yields MORE nodes than
+// everything accumulated before it.
+proof_k8!(c02_selectors_idx_idx_wild, 6, {
+    let mut sc = Scratch::new();
+    sc.elems[0] = Mini::Int(0);
+    sc.elems[1] = Mini::Int(1);
+    sc.elems[2] = Mini::Int(2);
+    let doc = sc.arr(3);
+    let (i, j): (i64, i64) = (kani::any(), kani::any());
+    kani::assume(i >= -4 && i <= 3 && j >= -4 && j <= 3);
+    let mut sels = Triple { a: ms_index(i), b: ms_index(j), c: ms_wild() };
+    let v = sel_vec(&mut sels, 3);
+    let st = process_selectors(State::root(&doc), &v);
+    let mut got = [core::ptr::null::<Mini>(); 8];
+    let n = nodes_of(&st.data, &mut got);
+    let mut m = 0;
+    if let Some(x) = rfc_index(i, 3) {
+        assert!(m < n && core::ptr::eq(got[m], &sc.elems[x]), "[i,j,*]: first selector's node first");
+        m += 1;
+    }
+    if let Some(x) = rfc_index(j, 3) {
+        assert!(m < n && core::ptr::eq(got[m], &sc.elems[x]), "[i,j,*]: second selector's node second");
+        m += 1;
+    }
+    assert!(n == m + 3, "[i,j,*] must return the indexed nodes plus every element");
+    assert!(
+        core::ptr::eq(got[m], &sc.elems[0]) && core::ptr::eq(got[m + 1], &sc.elems[1]) && core::ptr::eq(got[m + 2], &sc.elems[2]),
+        "[i,j,*]: the wildcard's nodes come last, in index order"
+    );
+    kani::cover!(m == 2, "both indices select (accumulated nodelist of two, then three more)");
+    kani::cover!(m == 0, "no index selects");
+    forget(st);
+    forget(v);
+    forget(sc);
+});
+
+// the same with concrete indices (every length along the way is concrete, so a decision is
+// reached even when the merge code under test is pointer-heavy): [0, 1, *] and [-1, 0, *]
+macro_rules! c02_selectors_cidx_wild {
+    ($name:ident, $i:expr, $j:expr) => {
+        proof_k8!($name, 6, {
+            let mut sc = Scratch::new();
+            sc.elems[0] = Mini::Int(kani::any());
+            sc.elems[1] = Mini::Int(kani::any());
+            sc.elems[2] = Mini::Int(kani::any());
+            let doc = sc.arr_c(3);
+            let mut sels = Triple { a: ms_index($i), b: ms_index($j), c: ms_wild() };
+            let v = sel_vec(&mut sels, 3);
+            let st = process_selectors(State::root(&doc), &v);
+            let mut got = [core::ptr::null::<Mini>(); 8];
+            let n = nodes_of(&st.data, &mut got);
+            let (x, y) = (rfc_index($i, 3).unwrap_or(0), rfc_index($j, 3).unwrap_or(0));
+            assert!(n == 5, "[i,j,*] with both indices in range must return five nodes");
+            assert!(core::ptr::eq(got[0], &sc.elems[x]) && core::ptr::eq(got[1], &sc.elems[y]), "[i,j,*]: the indexed nodes come first, in the order written");
+            assert!(
+                core::ptr::eq(got[2], &sc.elems[0]) && core::ptr::eq(got[3], &sc.elems[1]) && core::ptr::eq(got[4], &sc.elems[2]),
+                "[i,j,*]: the wildcard's nodes come last, in index order"
+            );
+            kani::cover!(true, "end reached");
+            forget(st);
+            forget(v);
+            forget(sc);
+        });
+    };
+}
+c02_selectors_cidx_wild!(c02_selectors_0_1_wild, 0, 1);
+c02_selectors_cidx_wild!(c02_selectors_m1_0_wild, -1, 0);
